@@ -88,7 +88,7 @@ add("C06", "runtime monitoring: the lock-step compile monitor records the operat
     TRUST + "Noise on measuring operations is not generated (documented as unsupported).", "DESIGN.md section 5, C06")
 
 add("C10", "runtime monitoring: boundary monitor on AlternateTargetSolver.solve (default and generated settings); every result entry is judged by the all-branch reference enumeration and lock-step monitored compiles against the target relabelled by the entry's own map, the listed graph by exhaustive LC orbits; tableau / DAG monitors run inside solve()",
-    "Connected targets on 2..6 (thorough ..7) vertices in four presentations x (n_iso, n_lc, every LC-orbit method incl. linear on paths and rgs on repeater graphs, orbit depth, sort_emit, allow_exhaustive, seeds) plus the default construction: for every returned (circuit, graph, map) the map must be a bijection, the circuit must generate |relabel(target, map)> (x) |0..0> in every outcome branch and on both real backends, the listed graph must lie in the LC orbit of the relabelled target, no two entries may list the same graph, and solver.result must match the returned list.",
+    "Connected targets on 2..6 (thorough ..7) vertices in four presentations x (n_iso, n_lc, every LC-orbit method incl. linear on paths and rgs on repeater graphs, orbit depth, sort_emit, allow_exhaustive, seeds) plus the default construction: for every returned (circuit, graph, map) the map must be a bijection, the circuit must generate |relabel(target, map)> (x) |0..0> in every outcome branch and on both real backends, the listed graph must lie in the LC orbit of the relabelled target, no two entries may list the same graph, and solver.result must match the returned list. One dense 8-9 vertex target per shard (four or more emitters) is solved under cheap settings; there LC-equivalence of the listed graph is judged by cut-rank invariants only.",
     TRUST + "label_map=True and noise / Monte-Carlo scoring are not varied.", "DESIGN.md section 5, C10")
 
 NOT_YET = {
